@@ -30,8 +30,9 @@ import translate_dummy as TD  # noqa: E402
 def facts(repo):
     text = TD.gen_dummy(repo).text()
     out = {}
-    for m in re.finditer(r"^def (\w+) : [^:=]+ := (.*?)(?:\s+--.*)?$", text, flags=re.M):
-        out[m.group(1)] = m.group(2).strip()
+    for m in re.finditer(r"^def (\w+) : [^:=]+ := (.*?)(\s+--.*)?$", text, flags=re.M):
+        # a missing data site is emitted as `default  -- translator_site_missing_<site>`: keep the marker visible
+        out[m.group(1)] = m.group(2).strip() + (" translator_site_missing" if m.group(2).strip() == "default" and "translator_site_missing" in (m.group(3) or "") else "")
     return out, text
 
 
